@@ -149,6 +149,36 @@ package trafficshape
 //@   trusted
 //@   modifies b.bclosed
 //@   ensures b.bclosed
+// The deadline setters forward to the wrapped connection one to one: SetDeadline arms BOTH directions (the proxy's
+// idle timeout on reads from the client depends on it), the one-sided setters their own side.
+//@ ghost var tsDlBoth int
+//@ ghost var tsDlRead int
+//@ ghost var tsDlWrite int
+//@ extern iface net.Conn.SetDeadline
+//@   modifies tsDlBoth
+//@   ensures tsDlBoth == old(tsDlBoth) + 1
+//@ extern iface net.Conn.SetReadDeadline
+//@   modifies tsDlRead
+//@   ensures tsDlRead == old(tsDlRead) + 1
+//@ extern iface net.Conn.SetWriteDeadline
+//@   modifies tsDlWrite
+//@   ensures tsDlWrite == old(tsDlWrite) + 1
+//@ func (*Conn).SetDeadline
+//@   serves C04 C01
+//@   requires c != nil && c.conn != nil
+//@   modifies tsDlBoth, tsDlRead, tsDlWrite
+//@   ensures[deadline-armed-for-both-directions-of-the-wrapped-connection] tsDlBoth == old(tsDlBoth) + 1 || (tsDlRead == old(tsDlRead) + 1 && tsDlWrite == old(tsDlWrite) + 1)
+//@   at call all of SetDeadline before assert[the-callers-deadline-is-passed-on] arg0 == t && self == c.conn
+//@ func (*Conn).SetReadDeadline
+//@   serves C04 C01
+//@   requires c != nil && c.conn != nil
+//@   modifies tsDlRead
+//@   ensures[read-deadline-armed-on-the-wrapped-connection] tsDlRead == old(tsDlRead) + 1
+//@ func (*Conn).SetWriteDeadline
+//@   serves C04 C01
+//@   requires c != nil && c.conn != nil
+//@   modifies tsDlWrite
+//@   ensures[write-deadline-armed-on-the-wrapped-connection] tsDlWrite == old(tsDlWrite) + 1
 //@ extern iface net.Conn.Close
 //@ func (*Conn).Close
 //@   serves C18
